@@ -434,3 +434,16 @@ for _name in sorted(_os.listdir(_sd)):
         _meta = _json.load(open(_os.path.join(_sd, _name, "meta.json")))
         SPECS.append({"property": _meta["property"], "kind": "mutant", "id": "seed-" + _name, "edits": [{"patch": "seeded/" + _name + "/patch.diff"}],
                       "expect": [_SEED_RULE[_name]] if _name in _SEED_RULE else [], "what": "seeded change: " + _meta.get("summary", "")[:80]})
+
+# ------------------------------------------------------------------------------------------------ C01 layout (abstract run of the builder)
+M("C01", "mpo-axes", SYMMPO, "axes = axes[:-3] + axes[-2:] + [axes[-3]]", "axes = axes[:-3] + [axes[-1], axes[-2]] + [axes[-3]]", ["layout"], "row and column axes exchanged: every site operator transposed")
+M("C01", "mpo-compose-index", SYMMPO, "            in_idx = composed_op.symbol[0]\n            op = primary_ops[composed_op.symbol[1]]", "            in_idx = composed_op.symbol[1]\n            op = primary_ops[composed_op.symbol[0]]",
+  ["layout"], "incoming index and primary operator index exchanged")
+T("C01", "twin-mpo-moveaxis", SYMMPO, "    axes = list(range(mo.ndim + 2))\n    axes = axes[:-3] + axes[-2:] + [axes[-3]]\n    return mo_mat.transpose(axes)", "    return np.moveaxis(mo_mat, mo.ndim - 1, -1)",
+  "the permutation written as one moveaxis")
+T("C01", "twin-mpo-local", SYMMPO, "            mo_mat[i] += basis.op_mat(term)", "            local = basis.op_mat(term)\n            mo_mat[i] += local", "local matrix bound to a name first")
+T("C02", "twin-opmat-local", "renormalizer/tn/symbolic_ttno.py", "                mo_elem = np.tensordot(mo_elem, b.op_mat(symbol)[None, :, :, None], axes=1)",
+  "                local = b.op_mat(symbol)\n                mo_elem = np.tensordot(mo_elem, local[None, :, :, None], axes=1)", "local matrix bound to a name first")
+T("C02", "twin-opmat-cache-by-object", "renormalizer/tn/symbolic_ttno.py", "                mo_elem = np.tensordot(mo_elem, b.op_mat(symbol)[None, :, :, None], axes=1)",
+  "                if (b, symbol) not in _CACHE:\n                    _CACHE[(b, symbol)] = b.op_mat(symbol)\n                mo_elem = np.tensordot(mo_elem, _CACHE[(b, symbol)][None, :, :, None], axes=1)",
+  "a module-level cache keyed by the basis object itself is sound", more=[{"file": "renormalizer/tn/symbolic_ttno.py", "old": "logger = logging.getLogger(__name__)\n", "new": "logger = logging.getLogger(__name__)\n_CACHE = {}\n"}])
